@@ -38,10 +38,10 @@ _counter = [0]
 T_UNITWS = "C09-unit-whitespace"     # known finding: units with white space cannot be stored
 T_BRACES = "C09-label-braces"        # optional stream (VERIF_C09_BRACES=1): the reader strips { and }
 
-# finding candidates reported to the maintainer; armed with VERIF_C09_CANDIDATES=1 (or once listed as known)
-T_STALE = "C09-stale-sidecar"        # save with subregions, then save without to the same name: old side-car is read
-T_COMPLEX = "C09-complex-imag-dropped"   # complex field: bin4/bin8 silently store the real parts only
-ARMED = os.environ.get("VERIF_C09_CANDIDATES", "0") != "0"
+T_STALE = "C09-stale-sidecar"        # known finding: save with subregions, then save without to the same
+                                     # name: the old side-car is read back (clause stale-sidecar)
+# observation only (complex fields are outside C09's quantifier, OVF is a real format): bin4/bin8 store the
+# real parts of a complex field and drop non-zero imaginary parts silently; txt writes rows the reader refuses
 
 CHECK = {4: 1234567.0, 8: 123456789012345.0}
 REPS = ["bin8", "bin4", "txt"]
@@ -609,15 +609,21 @@ def generate(rng, tier):
     for i in range(9 if quick else 45):
         cases.append(dict(kind="round", field=gen_field_pow2(rng, tier), rep=REPS[i % 3], extend=False))
         cases.append(dict(kind="write", field=gen_field_pow2(rng, tier), rep=REPS[(i + 2) % 3], extend=False))
-    for i, dt in enumerate(["int64", "int32", "uint8", "uint16", "float32", "complex0", "complex"] * (2 if quick else 8)):
+    for i, dt in enumerate(["int64", "int32", "uint8", "uint16", "float32", "complex0"] * (2 if quick else 8) + ["complex"] * 2):
         cases.append(dict(kind="round", field=gen_field_dtype(rng, tier, dt), rep=REPS[i % 3], extend=False))
     for i in range(3 if quick else 9):      # mesh units differ per axis: cannot be stored, must be refused
         f = gen_field(rng, tier, maxn=2, subs=False)
         f["munits"] = rng.choice([["m", "nm", "m"], ["m", "m", "s"], ["a", "b", "c"]])
         cases.append(dict(kind="round", field=f, rep=REPS[i % 3], extend=False))
     # state left by earlier calls, repeated calls, neighbours in the directory
+    nstale = 0
     for i in range(24 if quick else 160):
-        cases.append(gen_state(rng, tier, i))
+        c = gen_state(rng, tier, i)
+        if c["scen"] == "stale":
+            nstale += 1
+            if nstale > (3 if quick else 6):      # known finding: small stream
+                c["scen"] = "stems"
+        cases.append(c)
     # axis-order probes: index-coded values on meshes with three different n
     for i in range(12 if quick else 60):
         f = gen_field(rng, tier, vcls="index", exact=True)
@@ -1043,13 +1049,10 @@ def run_round(case):
         if not valid_rep:
             oracle.append("invalid-write-accepted")
         else:
-            oracle += oracle_roundtrip(fc, rep, extend, obs)
             if fc.get("dtype") == "complex":
-                # non-zero imaginary parts cannot be stored: only a refusal keeps the data safe
-                tags.append(T_COMPLEX)
-                obs["imag_dropped"] = True
-                if ARMED:
-                    oracle.append("imaginary-part-dropped")
+                obs["imag_dropped"] = True          # recorded, not judged
+            else:
+                oracle += oracle_roundtrip(fc, rep, extend, obs)
     else:
         obs = dict(rejected=out)
         if valid_rep and not cplx:
@@ -1403,7 +1406,7 @@ def run_state(case):
                 obs["stale_sidecar_read"] = "subregions" in rest
                 if "subregions" in rest:
                     tags.append(T_STALE)
-                    rest = [c for c in rest if c != "subregions"] + (["stale-sidecar"] if ARMED else [])
+                    rest = [c for c in rest if c != "subregions"] + ["stale-sidecar"]
                 bad += rest
             if snapshot(A) != sa or snapshot(B) != sb:
                 bad.append("operand-modified")
@@ -1413,8 +1416,7 @@ def run_state(case):
             if scen == "stale":
                 tags.append(T_STALE)
                 obs["stale_sidecar_read"] = "rejected"
-                if ARMED:
-                    oracle.append("stale-sidecar")
+                oracle.append("stale-sidecar")
             else:
                 oracle.append("roundtrip-rejected")
             obs["rejected"] = out
